@@ -51,7 +51,13 @@ def cexpr(t, kind="scalar"):
             raise Unsupported("aggregate " + t.op)
         if kind == "win" and t.op not in SUPPORTED_WIN:
             raise Unsupported("window fn " + t.op)
-        return "(EOp %s %s)" % (cstr(t.op), clist([cexpr(a, "scalar") for a in t.args]))
+        args = [cexpr(a, "scalar") for a in t.args]
+        if t.op in ("+", "*") and len(args) > 2:          # the parser folds `a + b + c` into ONE n-ary node: same value as the left fold
+            acc = args[0]
+            for a in args[1:]:
+                acc = "(EOp %s %s)" % (cstr(t.op), clist([acc, a]))
+            return acc
+        return "(EOp %s %s)" % (cstr(t.op), clist(args))
     raise Unsupported("term " + type(t).__name__)
 
 
